@@ -14,13 +14,32 @@ use vcore::{guarded, json, Args, Rng, Value};
 type Col = Vec<Option<String>>;
 type BCol = Vec<Option<Vec<u8>>>;
 
-const ENC: &[&str] = &["utf8", "large", "view", "dict"];
+const ENC: &[&str] = &["utf8", "large", "view", "dict", "dictnv"];
 
 fn enc_str(c: &Col, enc: &str) -> ArrayRef {
     match enc {
         "utf8" => Arc::new(StringArray::from(c.clone())),
         "large" => Arc::new(LargeStringArray::from(c.clone())),
         "view" => Arc::new(StringViewArray::from_iter(c.clone())),
+        "dictnv" => {
+            // nulls are encoded as a valid key that references a NULL dictionary value
+            // (plus, now and then, a null key): values = [null, distinct strings...]
+            let mut vals: Vec<Option<String>> = vec![None];
+            let mut keys: Vec<Option<i8>> = vec![];
+            for (i, x) in c.iter().enumerate() {
+                match x {
+                    Some(s) => {
+                        let pos = vals.iter().position(|v| v.as_deref() == Some(s.as_str())).unwrap_or_else(|| {
+                            vals.push(Some(s.clone()));
+                            vals.len() - 1
+                        });
+                        keys.push(Some(pos as i8));
+                    }
+                    None => keys.push(if i % 3 == 2 { None } else { Some(0) }),
+                }
+            }
+            Arc::new(DictionaryArray::<Int8Type>::new(Int8Array::from(keys), Arc::new(StringArray::from(vals))))
+        }
         _ => {
             let mut b = StringDictionaryBuilder::<Int32Type>::new();
             for x in c {
@@ -294,9 +313,9 @@ fn run(args: &Args) {
             if !args.thorough() && neg && pi % 4 != 0 {
                 continue;
             }
-            let encs: Vec<&str> = if args.thorough() { ENC.to_vec() } else { vec![ENC[(pi + ci as usize) % 4]] };
+            let encs: Vec<&str> = if args.thorough() { ENC.to_vec() } else { vec![ENC[(pi + ci as usize) % 5]] };
             for e in encs {
-                like_event(&mut t, "like", ci, neg, &col_all, false, e, &pc, true, if e == "dict" { "utf8" } else { e });
+                like_event(&mut t, "like", ci, neg, &col_all, false, e, &pc, true, if e == "dict" || e == "dictnv" { "utf8" } else { e });
             }
         }
         t.next_episode();
@@ -308,8 +327,8 @@ fn run(args: &Args) {
     let ascii_pats = all_strings(&['%', '_', '\\', 'a', 'K', '\u{212A}', '\u{017F}'], 3);
     for (pi, p) in ascii_pats.iter().enumerate() {
         let pc: Col = vec![Some(p.clone())];
-        let e = ENC[pi % 4];
-        like_event(&mut t, "like", true, false, &col_ascii, false, e, &pc, true, if e == "dict" { "utf8" } else { e });
+        let e = ENC[pi % 5];
+        like_event(&mut t, "like", true, false, &col_ascii, false, e, &pc, true, if e == "dict" || e == "dictnv" { "utf8" } else { e });
         t.next_episode();
     }
 
@@ -324,11 +343,17 @@ fn run(args: &Args) {
         let l = if ls { l[..1].to_vec() } else { l };
         let np = if rs { 1 } else if rng.chance(5) { n + 1 } else { n };
         let r: Col = (0..np).map(|_| if rng.chance(10) { None } else { Some(rand_pat(&mut rng, 6, ascii)) }).collect();
-        let e = ENC[rng.below(4)];
-        let re = if rng.chance(20) { "dict" } else if e == "dict" { "utf8" } else { e };
-        let (le, re) = if re == "dict" && e != "dict" { (e, "dict") } else { (e, re) };
-        // dictionary pattern needs the same value type as the haystack
-        let re = if re == "dict" && le != "utf8" && le != "dict" { le } else { re };
+        let e = ENC[rng.below(5)];
+        let is_dict = |x: &str| x == "dict" || x == "dictnv";
+        // a dictionary-encoded pattern side (values Utf8) needs a Utf8-valued haystack
+        let le = e;
+        let re = if rng.chance(25) && (le == "utf8" || is_dict(le)) {
+            if rng.chance(50) { "dict" } else { "dictnv" }
+        } else if is_dict(le) {
+            "utf8"
+        } else {
+            le
+        };
         let op = ["like", "like", "like", "starts_with", "ends_with", "contains", "eq_ascii_ci"][rng.below(7)];
         let r2: Col = if op == "like" { r } else { r.iter().map(|x| x.as_ref().map(|_| rand_s(&mut rng, 3, ascii))).collect() };
         let (ci, neg) = if op == "like" { (rng.chance(50), rng.chance(30)) } else { (false, false) };
@@ -359,9 +384,9 @@ fn run(args: &Args) {
                 })
             })
             .collect();
-        let e = ENC[rng.below(4)];
+        let e = ENC[rng.below(5)];
         let op = ["starts_with", "ends_with", "contains"][rng.below(3)];
-        like_event(&mut t, op, false, false, &l, false, e, &r, false, if e == "dict" { "utf8" } else { e });
+        like_event(&mut t, op, false, false, &l, false, e, &r, false, if e == "dict" || e == "dictnv" { "utf8" } else { e });
         // binary
         let lb: BCol = l.iter().map(|x| x.as_ref().map(|s| s.as_bytes().to_vec())).collect();
         let rb: BCol = r.iter().map(|x| x.as_ref().map(|s| { let b = s.as_bytes(); b[..b.len().min(1 + rng.below(4))].to_vec() })).collect();
